@@ -31,6 +31,7 @@ type Registry struct {
 	Opts  map[string]HarnessOpts    `json:"opts"`  // harness -> options
 	Tier  map[string]map[string]HarnessOpts `json:"tier_opts"` // tier -> harness -> options
 	Skip  map[string][]string       `json:"quick_skip"` // property -> harnesses only run in thorough
+	Wiring map[string][]string      `json:"wiring"` // property -> harnesses of package w (loads the application package)
 	Bounds map[string]string        `json:"bounds"` // harness -> human description of bounds
 	Assume map[string][]string      `json:"assumptions"` // property -> assumptions text
 }
@@ -88,7 +89,11 @@ func cmdHarness(args []string) int {
 	fs.Parse(args[1:])
 	name := args[0]
 	t0 := time.Now()
-	e, err := LoadEngine([]string{"./zz_verif/h"})
+	pats := []string{"./zz_verif/h"}
+	if isWiringHarness(name) {
+		pats = []string{"./zz_verif/w"}
+	}
+	e, err := LoadEngine(pats)
 	if err != nil {
 		fmt.Println("load:", err)
 		return 2
@@ -104,6 +109,9 @@ func cmdHarness(args []string) int {
 	printHarness(hr, true)
 	if !*noReplay && len(hr.Viol) > 0 {
 		rp := newReplayer()
+		if isWiringHarness(name) {
+			rp = newWiringReplayer()
+		}
 		for i := range hr.Viol {
 			rp.replay(&hr.Viol[i], "DEBUG")
 			fmt.Printf("  replay %s [%s]: %s\n", hr.Viol[i].Label, hr.Viol[i].Known, hr.Viol[i].Replay)
@@ -161,9 +169,19 @@ type replayer struct {
 	built bool
 	err   error
 	bin   string
+	cmd   string
 }
 
-func newReplayer() *replayer { return &replayer{bin: filepath.Join(verifDir, "build", "replay.bin")} }
+func newReplayer() *replayer {
+	return &replayer{bin: filepath.Join(verifDir, "build", "replay.bin"), cmd: "./zz_verif/cmd/replay"}
+}
+
+// wiring harnesses (package w, imports the whole application) replay through their own binary
+func newWiringReplayer() *replayer {
+	return &replayer{bin: filepath.Join(verifDir, "build", "replayw.bin"), cmd: "./zz_verif/cmd/replayw"}
+}
+
+func isWiringHarness(name string) bool { return strings.Contains(name, "_Wiring") || strings.HasSuffix(name, "_W") }
 
 func (r *replayer) build() error {
 	if r.built {
@@ -181,13 +199,13 @@ func (r *replayer) build() error {
 		rel, _ := filepath.Rel(repoDir, virt)
 		rep[virt] = filepath.Join(root, rel)
 		if filepath.Base(virt) == "zz_registry.go" {
-			rep[virt] = filepath.Join(verifDir, "build", "gen", "zz_registry.go")
+			rep[virt] = filepath.Join(verifDir, "build", "gen", filepath.Base(filepath.Dir(virt)), "zz_registry.go")
 		}
 	}
 	b, _ := json.Marshal(map[string]interface{}{"Replace": rep})
 	ovFile := filepath.Join(verifDir, "build", "overlay.json")
 	os.WriteFile(ovFile, b, 0o644)
-	cmd := exec.Command("go", "build", "-overlay", ovFile, "-modfile="+filepath.Join(verifDir, "build", "go.mod"), "-o", r.bin, "./zz_verif/cmd/replay")
+	cmd := exec.Command("go", "build", "-overlay", ovFile, "-modfile="+filepath.Join(verifDir, "build", "go.mod"), "-o", r.bin, r.cmd)
 	cmd.Dir = repoDir
 	cmd.Env = goEnv()
 	out, err := cmd.CombinedOutput()
@@ -247,6 +265,9 @@ func cmdReplay(args []string) int {
 		return 2
 	}
 	r := newReplayer()
+	if isWiringHarness(v.Harness) {
+		r = newWiringReplayer()
+	}
 	if err := r.build(); err != nil {
 		fmt.Println(err)
 		return 2
@@ -294,7 +315,11 @@ func cmdRun(args []string) int {
 			knownText[f.ID] = f.Text
 		}
 	}
-	e, err := LoadEngine([]string{"./zz_verif/h"})
+	pats := []string{"./zz_verif/h"}
+	if len(reg.Wiring[prop]) > 0 {
+		pats = append(pats, "./zz_verif/w")
+	}
+	e, err := LoadEngine(pats)
 	if err != nil {
 		fmt.Println("ENGINE: load failed:", err)
 		writeEvidence(prop, tier, seed, nil, nil, time.Since(t0).Seconds(), []string{"load failed: " + err.Error()}, reg)
@@ -308,6 +333,17 @@ func cmdRun(args []string) int {
 		}
 	}
 	names = append(names, reg.Extra[prop]...)
+	for _, w := range reg.Wiring[prop] {
+		dup := false
+		for _, n := range names {
+			if n == w {
+				dup = true
+			}
+		}
+		if !dup {
+			names = append(names, w)
+		}
+	}
 	if tier == "quick" {
 		skip := map[string]bool{}
 		for _, s := range reg.Skip[prop] {
@@ -337,6 +373,7 @@ func cmdRun(args []string) int {
 	fmt.Printf("property %s tier %s: %d harnesses (load %.1fs)\n", prop, tier, len(names), loadS)
 	var runs []*HarnessRun
 	rp := newReplayer()
+	rpw := newWiringReplayer()
 	status := 0
 	bump := func(s int) {
 		if s == 1 || (s == 2 && status == 0) {
@@ -382,7 +419,11 @@ func cmdRun(args []string) int {
 		}
 		for i := range hr.Viol {
 			v := &hr.Viol[i]
-			rp.replay(v, prop)
+			if isWiringHarness(v.Harness) {
+				rpw.replay(v, prop)
+			} else {
+				rp.replay(v, prop)
+			}
 			if v.Replay == "reproduced" {
 				if v.Known != "" {
 					if !knownSeen[v.Known] {
